@@ -4,12 +4,10 @@ Theorems for the `rpm` scheme (model `Univers/Scheme/Rpm.lean`, spec `Univers/Sc
 * `vercmp_eq_key`      REFINEMENT (C03): `compare_rpm_versions` = the rpmvercmp key order, all `Raw`
 * `TransCmp vercmp`    C01: the comparison is a total preorder (oriented + transitive)
 * `verOps_lawful`      C02: the six operators of `univers.versions.RpmVersion` are induced by it
-* `valOps_ne_counterexample`, `valOps_not_lawful`
-                       the VALUE class `univers.rpm.RpmVersion` has `1.0 == 1.00` and `1.0 != 1.00`
-                       (compare-based `__eq__`, inherited textual `tuple.__ne__`)
+* `valOps_lawful`      the VALUE class `univers.rpm.RpmVersion` is lawful too (since repair 9738a24)
 * `eq_iff_key_eq`      `a == b` iff the keys are identical (the key is what a hash should use)
-* `eq_imp_hash_counterexample`  C12 FAILS: `1.0 == 1.00`, hash of different tuples
-* `eq_imp_hash_partial`         C12 on canonically spelled versions
+* `getSegments_eq`     `get_segments` (the hash tokenizer) = the spec tokenizer `segs`
+* `eq_imp_hash`        C12: `a == b → hash key equal`, all `Raw` (since repairs 9738a24, 39a75b5)
 * `str_roundtrip`      C11 on `WellFormed` values
 * `str_roundtrip_counterexample`, `str_roundtrip_counterexample_epoch`, `str_invalid_counterexample`
                        C11 FAILS on values the constructor produces (`0:v2`, `0:1:2`, `0:`)
@@ -383,7 +381,10 @@ theorem verOps_lawful : Lawful verOps vercmp := by
   constructor <;> intro a b <;> simp only [verOps, Py.attrsOps, valOps] <;>
     cases vercmp a b <;> rfl
 
-/-! ### the value objects: `tuple.__ne__` disagrees with the hand-written `__eq__` -/
+/-- since the repair 9738a24 the value class `univers.rpm.RpmVersion` is lawful too (before it,
+`1.0 == 1.00` and `1.0 != 1.00` were both true: inherited textual `tuple.__ne__`). -/
+theorem valOps_lawful : Lawful valOps vercmp := by
+  constructor <;> intro a b <;> rfl
 
 /-- `rpm.RpmVersion(0, "1.0", "")` -/
 def w10 : Raw := ⟨0, ['1', '.', '0'], []⟩
@@ -393,28 +394,6 @@ def w100 : Raw := ⟨0, ['1', '.', '0', '0'], []⟩
 theorem vercmp_w10_w100 : vercmp w10 w100 = .eq := by
   rw [vercmp_eq_key]
   simp [w10, w100, key, segs, keyCmp, lexPair, intCmp, segsCmp, padLex, segCmp_num, Nat.ofDigitChars]
-
-/-- At the level of `univers.rpm.RpmVersion` (the NamedTuple) `a == b` and `a != b` are both
-true for `1.0` / `1.00`: `__eq__` is compare-based, `__ne__` is the inherited `tuple.__ne__`.
-(`univers.versions.RpmVersion` is shielded from this: attrs' `__ne__` negates `__eq__`.) -/
-theorem valOps_ne_counterexample : valOps.eq w10 w100 = true ∧ valOps.ne w10 w100 = true := by
-  refine ⟨?_, by decide⟩
-  simp [valOps, vercmp_w10_w100]
-
-theorem valOps_not_lawful : ¬ Lawful valOps vercmp := by
-  intro h
-  have := h.ne w10 w100
-  rw [vercmp_w10_w100, valOps_ne_counterexample.2] at this
-  exact absurd this (by decide)
-
-/-! ### hash (C12) -/
-
-/-- C12 FAILS: `RpmVersion("1.0") == RpmVersion("1.00")` but the hashes are those of the
-different tuples `(0, "1.0", "")` and `(0, "1.00", "")`. -/
-theorem eq_imp_hash_counterexample :
-    verOps.eq w10 w100 = true ∧ hashKey w10 ≠ hashKey w100 := by
-  refine ⟨?_, by decide⟩
-  rw [verOps_lawful.eq, vercmp_w10_w100]; rfl
 
 /-! ### when are two versions equal: exactly when the keys are the same -/
 
@@ -492,57 +471,93 @@ theorem eq_iff_key_eq (a b : Raw) : verOps.eq a b = true ↔ key a = key b := by
   · intro h
     rw [h, ReflCmp.compare_self (cmp := keyCmp)]; rfl
 
-/-! ### hash on canonically spelled versions -/
+theorem allDigit_toDigits (n : Nat) : AllDigit (Nat.toDigits 10 n) :=
+  fun _ hc => Nat.isDigit_of_mem_toDigits (by omega) (by omega) hc
 
-def renderSeg : Seg → List Char
+/-! ### hash (C12): `hash((epoch, get_segments(version), get_segments(release)))` -/
+
+/-- two ASCII digit strings with the same numeric value have the same `lstrip("0")` text -/
+theorem strip_eq_of_val_eq (x y : List Char) (hx : AllDigit x) (hy : AllDigit y)
+    (h : val x 0 = val y 0) :
+    x.dropWhile (fun c => c == '0') = y.dropWhile (fun c => c == '0') := by
+  have hn := numCmp_eq x y hx hy
+  rw [h, Nat.compare_eq_eq.2 rfl] at hn
+  simp only [numCmp] at hn
+  split at hn
+  · cases hn
+  · split at hn
+    · cases hn
+    · exact lexList_charCmp_eq hn
+
+/-- a segment of the spec as the element of the tuple that `get_segments` returns -/
+def toH : Seg → List Char
   | .tilde => ['~']
   | .caret => ['^']
   | .fin => []
   | .alpha s => s
-  | .num n => Nat.toDigits 10 n
+  | .num n => (Nat.toDigits 10 n).dropWhile (fun c => c == '0')
 
-/-- a dot where two segments would otherwise merge, and between a number and a word -/
-def renderSep : Seg → Seg → List Char
-  | .num _, .num _ => ['.']
-  | .alpha _, .alpha _ => ['.']
-  | .num _, .alpha _ => ['.']
-  | _, _ => []
+theorem convSeg_digits (c : Char) (r : List Char) (h : c.isDigit = true) :
+    convSeg ((c :: r).takeWhile Char.isDigit) = toH (.num (val ((c :: r).takeWhile Char.isDigit) 0)) := by
+  have hd := allDigit_takeWhile (c :: r)
+  have hall : ((c :: r).takeWhile Char.isDigit).all Char.isDigit = true := List.all_eq_true.2 hd
+  have hne : ((c :: r).takeWhile Char.isDigit).isEmpty = false := by
+    simp [List.takeWhile_cons, h]
+  simp only [convSeg, hall, hne, Bool.not_false, Bool.and_self, ↓reduceIte, toH]
+  exact strip_eq_of_val_eq _ _ hd (allDigit_toDigits _)
+    (Nat.ofDigitChars_toDigits (by omega) (by omega)).symm
 
-def render : List Seg → List Char
-  | [] => []
-  | [s] => renderSeg s
-  | s :: t :: rest => renderSeg s ++ renderSep s t ++ render (t :: rest)
+theorem convSeg_alpha (c : Char) (r : List Char) (h : c.isAlpha = true) :
+    convSeg ((c :: r).takeWhile Char.isAlpha) = (c :: r).takeWhile Char.isAlpha := by
+  have hd := (alpha_ne c h).2.2
+  simp [convSeg, List.takeWhile_cons, h, hd]
 
-/-- one canonical spelling per key: no leading zeros, no junk, dots only as in `render`
-(`1.2.el7`, `3~rc1`, `1.0^git1`) -/
-def Canonical (s : List Char) : Prop := render (segs s) = s
+/-- `get_segments` is the spec's tokenizer -/
+theorem getSegments_eq (s : List Char) : getSegments s = (segs s).map toH := by
+  fun_induction segs s with
+  | case1 => simp [getSegments, findSegs]
+  | case2 c r hc ih =>
+    have e : c = '~' := by simpa using hc
+    subst e
+    rw [getSegments, findSegs]
+    simp only [show ('~' : Char).isDigit = false by decide, show ('~' : Char).isAlpha = false by decide,
+      Bool.false_eq_true, ↓reduceIte, beq_self_eq_true, List.map_cons]
+    rw [← getSegments, ih]; rfl
+  | case3 c r hc1 hc ih =>
+    have e : c = '^' := by simpa using hc
+    subst e
+    rw [getSegments, findSegs]
+    simp only [show ('^' : Char).isDigit = false by decide, show ('^' : Char).isAlpha = false by decide,
+      Bool.false_eq_true, ↓reduceIte, beq_self_eq_true, List.map_cons,
+      show (('^' : Char) == '~') = false by decide]
+    rw [← getSegments, ih]; rfl
+  | case4 c r hc1 hc2 hd ih =>
+    rw [getSegments, findSegs]
+    simp only [hd, ↓reduceIte, List.map_cons]
+    rw [← getSegments, ih, convSeg_digits c r hd]
+  | case5 c r hc1 hc2 hd ha ih =>
+    rw [getSegments, findSegs]
+    simp only [hd, ha, Bool.false_eq_true, ↓reduceIte, List.map_cons]
+    rw [← getSegments, ih, convSeg_alpha c r ha]; rfl
+  | case6 c r hc1 hc2 hd ha ih =>
+    rw [getSegments, findSegs]
+    simp only [hd, ha, hc1, hc2, Bool.false_eq_true, ↓reduceIte]
+    exact ih
 
-instance (s : List Char) : Decidable (Canonical s) := inferInstanceAs (Decidable (_ = _))
+/-- the hash key is a function of the spec key -/
+theorem hashKey_eq (r : Raw) :
+    hashKey r = (r.epoch, (segs r.version).map toH, (segs r.release).map toH) := by
+  simp only [hashKey, getSegments_eq]
 
-def CanonicalRaw (r : Raw) : Prop := Canonical r.version ∧ Canonical r.release
-
-instance (r : Raw) : Decidable (CanonicalRaw r) := inferInstanceAs (Decidable (_ ∧ _))
-
-/-- C12 on canonically spelled versions -/
-theorem eq_imp_hash_partial (a b : Raw) (ha : CanonicalRaw a) (hb : CanonicalRaw b) :
-    verOps.eq a b = true → hashKey a = hashKey b := by
+/-- C12 (since the repairs 9738a24, 39a75b5): versions that are `==` have the same hash key -/
+theorem eq_imp_hash (a b : Raw) : verOps.eq a b = true → hashKey a = hashKey b := by
   intro h
   have hk := (eq_iff_key_eq a b).1 h
-  obtain ⟨ea, va, ra⟩ := a
-  obtain ⟨eb, vb, rb⟩ := b
   simp only [key] at hk
-  have h1 : ea = eb := congrArg Prod.fst hk
-  have h2 : segs va = segs vb := congrArg (fun k => k.2.1) hk
-  have h3 : segs ra = segs rb := congrArg (fun k => k.2.2) hk
-  simp only [CanonicalRaw, Canonical] at ha hb
-  simp only [hashKey, Raw.mk.injEq]
-  refine ⟨h1, ?_, ?_⟩
-  · rw [← ha.1, ← hb.1, h2]
-  · rw [← ha.2, ← hb.2, h3]
-
-example : CanonicalRaw ⟨1, "1.2.el7".toList, "3~rc1".toList⟩ := by
-  simp [CanonicalRaw, Canonical, segs, render, renderSeg, renderSep, Nat.ofDigitChars, Nat.toDigits,
-    Nat.toDigitsCore, Nat.digitChar]
+  have h1 : a.epoch = b.epoch := congrArg Prod.fst hk
+  have h2 : segs a.version = segs b.version := congrArg (fun k => k.2.1) hk
+  have h3 : segs a.release = segs b.release := congrArg (fun k => k.2.2) hk
+  rw [hashKey_eq, hashKey_eq, h1, h2, h3]
 
 /-! ### `str` round trip (C11) -/
 
@@ -580,9 +595,6 @@ theorem partition_append (sep : Char) (a b : List Char) (h : a.contains sep = fa
   simp only [partition]
   rw [List.takeWhile_append_of_pos h', List.dropWhile_append_of_pos h']
   simp
-
-theorem allDigit_toDigits (n : Nat) : AllDigit (Nat.toDigits 10 n) :=
-  fun _ hc => Nat.isDigit_of_mem_toDigits (by omega) (by omega) hc
 
 theorem validTail_allDigit (l : List Char) (h : AllDigit l) : validTail l = true := by
   induction l with
